@@ -107,7 +107,7 @@ func traceStage(id string, seed int64, num, ln int) func(ev *Evidence) ([]string
 		opts := make([]tracegen.Opts, num)
 		for i := range opts {
 			opts[i] = tracegen.Opts{K: traceK, Len: ln, Seed: rng.Int63(), Palette: palette.Names[rng.Intn(len(palette.Names))],
-				Cache: []int{0, 3, 1000}[rng.Intn(3)], Flush: []int{150, 400, 100000, 100000}[rng.Intn(4)]}
+				Cache: []int{0, 3, 1000}[rng.Intn(3)], Flush: []int{150, 400, 100000, 100000}[rng.Intn(4)], EmptyFirstKey: rng.Intn(4) == 0}
 		}
 		traces := make([][]string, num)
 		errs := make([]error, num)
